@@ -93,6 +93,11 @@ def special_triangles(rng):
              b.Metadata(country="", per_occurrence_limit=0.0, loss_details={"cov": "x"}),
              b.Metadata(country="", per_occurrence_limit=0, loss_details={"cov": "y"}), b.Metadata(risk_basis=None)]
     out.append((cells_for(metas, lambda mi, pi, ei: {"paid": 10 * mi + ei}), "none-vs-empty-vs-zero-metadata"))
+    # round 8: a field holding floats next to integers beyond 2**53 (exact only as Python ints): extract / select / filter
+    # must hand them back unrounded
+    bigs = [2 ** 53 + 1, 1.5, -(2 ** 62) - 1, 7, 2 ** 63 - 1, 0.25]
+    out.append((cells_for([b.Metadata(), b.Metadata(country="US")], lambda mi, pi, ei: {"paid": bigs[(3 * mi + 2 * pi + ei) % 6], "n": bigs[(2 * ei) % 6]}),
+                "floats-next-to-integers-beyond-2**53"))
     # F: empty, one cell
     out.append(([], "empty"))
     out.append((cells_for([b.Metadata()], lambda mi, pi, ei: {"paid": 1})[:1], "one-cell"))
@@ -798,6 +803,26 @@ def oracle_getitem(cells, ix, res):
     return probs
 
 
+def _same_entry(x, w):
+    """is the extracted entry x EXACTLY the value w the cell holds?  (no comparison through float64: integers beyond
+    2**53 must survive; a scalar stays a scalar, an array an array of the same shape)"""
+    if w is None or x is None:
+        return w is None and x is None
+    if isinstance(w, np.ndarray) and w.ndim > 0:
+        return isinstance(x, np.ndarray) and x.shape == w.shape and (x.dtype.kind == w.dtype.kind or x.dtype == object) \
+            and all(_same_entry(a, b) for a, b in zip(x.tolist(), w.tolist()))
+    xi = x.item() if isinstance(x, (np.generic, np.ndarray)) and np.ndim(x) == 0 else x
+    wi = w.item() if isinstance(w, (np.generic, np.ndarray)) else w
+    if isinstance(xi, (list, tuple, np.ndarray)):
+        return False
+    if isinstance(wi, int) and not isinstance(wi, bool) and isinstance(xi, float):
+        return xi == wi and int(xi) == wi          # a float entry for an int value is tolerated only when it is exact
+    try:
+        return bool(xi == wi)
+    except Exception:  # noqa: BLE001
+        return False
+
+
 def oracle(t, op, res):
     """Problems (list of str) of the real result w.r.t. the property statement; [] = fine.
     `res` is the python result or the exception raised."""
@@ -883,7 +908,7 @@ def oracle(t, op, res):
         else:
             for c, x in zip(cells, res):
                 w = c.values.get(f)
-                same = (x is None) if w is None else (x is not None and np.array_equal(np.asarray(x, dtype=float), np.asarray(w, dtype=float)))
+                same = _same_entry(x, w)
                 if not same:
                     probs.append(f"extract({f!r}): entry {x!r} for a cell holding {w!r}")
                     break
